@@ -32,6 +32,8 @@ def has_chunked(interp, body, seen=None):
 
 
 class ValueGen:
+    _big = {"short": 0, "small": 0, "inside": 0}
+
     def __init__(self, interp, rng, dialect="nd"):
         self.it = interp
         self.rng = rng
@@ -90,6 +92,7 @@ class ValueGen:
         # 0xFF-capable data is only a problem ahead of or inside a chunked section: everything after the
         # last top-level instruction that contains one (directly or through a struct / case) is free again
         self._free_after = None
+        self._big = {"short": 0, "small": 0, "inside": 0}
         if self.ff_free:
             last = max(i for i, ins in enumerate(body) if has_chunked(self.it, [ins]))
             self._free_after = (id(body), last)
@@ -195,7 +198,13 @@ class ValueGen:
                     n = rng.choice([0, 1, 1, 2, 3, 5])
                 if self.dialect == "wu" and ins.optional and n == 0 and not isinstance(ins.length, int):
                     n = 1
-                fields[ins.name] = [self.scalar(ins, t, sanitized, in_array=True) for _ in range(n)]
+                if n > 100:
+                    self._big["inside"] += 1
+                try:
+                    fields[ins.name] = [self.scalar(ins, t, sanitized, in_array=True) for _ in range(n)]
+                finally:
+                    if n > 100:
+                        self._big["inside"] -= 1
             elif k == "switch":
                 fv = fields.get(ins.field)
                 case = self.it.select_case(ins, fv, cls)
@@ -220,6 +229,12 @@ class ValueGen:
             p *= 0.3
         if top < 0 or rng.random() >= p:
             return n
+        # keep a message affordable: one 64k-sized and three 250-sized items per message at most, and none
+        # inside the elements of such an item (they would multiply)
+        used = self._big
+        if used["inside"] or (wire == "short" and used["short"] >= 1) or (wire != "short" and used["small"] >= 3):
+            return n
+        used["short" if wire == "short" else "small"] += 1
         m = max(0, ld.offset, top - rng.choice([0, 0, 1, 2, 3]) - (2 * max(0, ld.offset) if rng.random() < 0.4 else 0))
         if self.dialect == "wu" and self.ff_free and wire == "byte" and m - ld.offset == 255:
             m -= 1
